@@ -8,6 +8,26 @@ _NOTE = ('trusted base: the simulator itself (SimLoop, SimKernel, fake ZeroMQ) '
 _TECH = 'deterministic simulation with fault injection'
 
 META = {
+    'C20': {
+        'level': 'exploration',
+        'text': 'FileStream driven on a real scratch directory with a '
+                'virtual clock through seeded histories of writes (valid '
+                'UTF-8 chunks around max_bytes, multi-byte, with/without '
+                'newlines), close / re-open / restart (new FileStream on the '
+                'same path) and pre-existing active and backup files (with '
+                'gaps), with and without time_format; after every operation '
+                'the files are compared with the logical log (contiguous '
+                'unduplicated tail, backup count and numbering, active size '
+                'below max_bytes, line prefixes, exact copy without '
+                'rotation). thorough adds a systematic sweep of small '
+                'parameters',
+        'note': 'trusted base: the reference model in props/c20.py; no disk '
+                'faults are injected (the statement promises nothing under '
+                'them); the scheduling dimension of the technique does not '
+                'apply to this single-caller surface, its history dimension '
+                '(durable state across close/reopen/restart) does',
+        'technique': _TECH + ' (history-driven reference-model check of '
+                     'durable state; no scheduler involved)'},
     'C06': {
         'level': 'exploration',
         'text': 'daemon half: seeded sequences of control messages from four '
